@@ -231,6 +231,25 @@ func init() {
 			}
 			return VSlice{O: ex.newObj(VArr{e}), Len: n, Cap: n}
 		}
+		// node-local configuration: ndNodeConfig(i) switches to node i; configuration reads (telemetry switch ...)
+		// return an arbitrary value that is fixed per node
+		m["nd:ndNodeConfig"] = func(ex *Exec, fr *frame, cc *ssa.CallCommon, a []Value) Value {
+			ex.cfgEpoch = cint(a[0])
+			return nil
+		}
+		// ndGas: the store accesses made so far (natively: the gas consumed; only compared for equality between runs)
+		m["nd:ndGas"] = func(ex *Exec, fr *frame, cc *ssa.CallCommon, a []Value) Value {
+			return VInt{IntC(int64(ex.StoreOps))}
+		}
+		m["github.com/cosmos/cosmos-sdk/telemetry.IsTelemetryEnabled"] = func(ex *Exec, fr *frame, cc *ssa.CallCommon, a []Value) Value {
+			n := fmt.Sprintf("nd_nodecfg_telemetry_%d", ex.cfgEpoch)
+			ex.declare(n, "Bool")
+			if !ex.ndSeen[n] {
+				ex.ndSeen[n] = true
+				ex.ndNames = append(ex.ndNames, n)
+			}
+			return VBool{BoolVar(n)}
+		}
 		m["nd:ndAtomLess"] = func(ex *Exec, fr *frame, cc *ssa.CallCommon, a []Value) Value {
 			sa, oka := a[0].(VStr)
 			sb, okb := a[1].(VStr)
